@@ -2,25 +2,25 @@
 From Coq Require Import List NArith Bool.
 From Frugal Require Import Bytes Wire Skip Values Desc Spec Encode Decode Checks Tags State Bitset Alloc DescMap Conc LegacyDefs.
 From Frugal.gen Require Import Params.
-From Frugal.proofs Require Import GenParams GenTables BytesWire EncodeSpec.
+From Frugal.proofs Require Import GenEncParams GenTables BytesWire EncodeSpec.
 From Frugal.props Require Import Examples.
 Import ListNotations.
 
 Theorem C02_encode_is_put_denote : forall env sid v,
-  params_ok = true -> tables_ok = true -> env_ok env = true -> has_type env (TStruct sid) v = true ->
+  enc_params_ok = true -> tables_ok = true -> env_ok env = true -> has_type env (TStruct sid) v = true ->
   append_struct env sid v = put (denote env (TStruct sid) v).
 Proof. exact encode_refines. Qed.
 Print Assumptions C02_encode_is_put_denote.
 
 (* the denotation is a well-formed wire struct ... *)
 Theorem C02_denote_wf : forall env sid v,
-  has_type env (TStruct sid) v = true -> EncodeSpec.holders_empty v = true -> params_ok = true -> env_ok env = true ->
+  has_type env (TStruct sid) v = true -> EncodeSpec.holders_empty v = true -> enc_params_ok = true -> env_ok env = true ->
   wf (denote env (TStruct sid) v) = true.
 Proof. exact denote_wf_struct. Qed.
 Print Assumptions C02_denote_wf.
 
 (* ... with the declared wire code at every level (enum as i32, binary as string, set / list) ... *)
-Theorem C02_declared_codes : forall env, params_ok = true -> forall v t,
+Theorem C02_declared_codes : forall env, enc_params_ok = true -> forall v t,
   has_type env t v = true -> EncodeSpec.slot_ok env t v = true -> code_of (denote env t v) = wt t.
 Proof. exact code_of_denote. Qed.
 
@@ -40,5 +40,5 @@ Proof. split; vm_compute; reflexivity. Qed.
 
 (* the side conditions on the generated constants and tables that the theorems above assume hold
    for what the translator read from the sources of this run *)
-Theorem C02_side_conditions : params_ok = true /\ tables_ok = true.
-Proof. split; [exact params_ok_holds | exact tables_ok_holds]. Qed.
+Theorem C02_side_conditions : enc_params_ok = true /\ tables_ok = true.
+Proof. split; [exact enc_params_ok_holds | exact tables_ok_holds]. Qed.
